@@ -110,6 +110,9 @@ def gen_session(rng, tier, small=None):
             j = rng.randrange(len(G2['nodes']))
             G2['nodes'][j][1] = newc
         steps.append({'P': P2, 'G': G2})
+    if rng.random() < 0.4:
+        for st in steps:
+            st['reuse'] = True          # one matcher object answers all four queries of the step
     return {'steps': steps}
 
 
@@ -198,10 +201,12 @@ def run_impl(inp):
         G, P = _nx(st['G']), _nx(st['P'])
         res = {}
         eq = lambda a, b: a['c'] == b['c']
+        # one matcher object may serve several queries one after the other (st['reuse']), or every query gets a fresh one
+        shared = ISMAGS(G, P, node_match=eq, edge_match=eq, cache=cache) if st.get('reuse') else None
         for sym in (False, True):
-            ism = ISMAGS(G, P, node_match=eq, edge_match=eq, cache=cache)
+            ism = shared or ISMAGS(G, P, node_match=eq, edge_match=eq, cache=cache)
             res['iso_%d' % sym] = [_canon(st['P'], m) for m in ism.find_isomorphisms(symmetry=sym)]
-            ism = ISMAGS(G, P, node_match=eq, edge_match=eq, cache=cache)
+            ism = shared or ISMAGS(G, P, node_match=eq, edge_match=eq, cache=cache)
             res['lcs_%d' % sym] = [_canon(st['P'], m) for m in ism.largest_common_subgraph(symmetry=sym)]
         ism = ISMAGS(G, P, node_match=eq, edge_match=eq, cache=cache)
         if len(P):
@@ -250,7 +255,7 @@ def describe(inp, out):
     return {'n_steps': len(inp['steps']), 'p_nodes': len(st['P']['nodes']), 'g_nodes': len(st['G']['nodes']),
             'n_iso': min(len(res['iso_0']), 12), 'n_iso_sym': min(len(res['iso_1']), 6), 'n_constraints': min(len(res['cons']), 6),
             'lcs_size': max([len(m) for m in res['lcs_0']] or [0]),
-            'node_colours': len({c for _, c in st['G']['nodes']}), 'recoloured_followup': len(inp['steps']) > 1,
+            'node_colours': len({c for _, c in st['G']['nodes']}), 'recoloured_followup': len(inp['steps']) > 1, 'matcher_reused': bool(st.get('reuse')),
             'lexleader_certificate': all(r.get('base') is not None for r in out['steps'])}
 
 
